@@ -51,6 +51,7 @@ type kvElection struct {
 	leaderStartTime atomic.Value // Track when leadership started for duration metric
 
 	watcherRunning atomic.Bool
+	watcherCtx     context.Context // the run the running watcher belongs to; guarded by mu
 
 	wg sync.WaitGroup
 
@@ -616,13 +617,24 @@ func (e *kvElection) becomeFollower() bool {
 		)...,
 	)
 
-	if e.ctx != nil && !e.watcherRunning.Load() {
+	// One watcher per run. A watcher of a previous run does not count: its context has
+	// ended and it is on its way out (a restart right after the context passed to Start
+	// was cancelled used to find it still marked as running, started none, and was left
+	// without watcher and periodic check when the old one exited). None is started on a
+	// context that has already ended.
+	if ctx := e.ctx; ctx != nil && ctx.Err() == nil && e.watcherCtx != ctx {
+		e.watcherCtx = ctx
 		e.watcherRunning.Store(true)
 		e.wg.Add(1)
 		go func() {
-			defer e.watcherRunning.Store(false)
 			defer e.wg.Done()
-			e.watchLoop(e.ctx)
+			e.watchLoop(ctx)
+			e.mu.Lock()
+			if e.watcherCtx == ctx {
+				e.watcherCtx = nil
+				e.watcherRunning.Store(false)
+			}
+			e.mu.Unlock()
 		}()
 	}
 
@@ -676,6 +688,7 @@ func (e *kvElection) Stop() error {
 	e.state.Store(StateStopped)
 	e.lastTransition.Store(time.Now())
 	e.watcherRunning.Store(false)
+	e.watcherCtx = nil
 
 	e.recordTransition(currentState, StateStopped)
 	e.updateIsLeaderMetric()
@@ -756,6 +769,7 @@ func (e *kvElection) StopWithContext(ctx context.Context, opts StopOptions) erro
 	e.state.Store(StateStopped)
 	e.lastTransition.Store(time.Now())
 	e.watcherRunning.Store(false)
+	e.watcherCtx = nil
 
 	e.recordTransition(currentState, StateStopped)
 	e.updateIsLeaderMetric()
